@@ -1,4 +1,120 @@
 // Modes that drive crate-internal code through scryer_prolog::verif_hooks.
-pub fn dispatch(_mode: &str, _args: &[String]) -> bool {
-    false
+// Line-oriented: `id<TAB>payload` in, `id<TAB>result` out.
+use std::io::{BufRead, BufReader, Write};
+use std::panic::{catch_unwind, AssertUnwindSafe};
+
+use scryer_prolog::verif_hooks as vh;
+
+fn unhex(s: &str) -> Vec<u8> {
+    (0..s.len() / 2).map(|i| u8::from_str_radix(&s[2 * i..2 * i + 2], 16).unwrap_or(0)).collect()
+}
+
+fn panic_msg(e: Box<dyn std::any::Any + Send>) -> String {
+    if let Some(s) = e.downcast_ref::<String>() {
+        s.clone()
+    } else if let Some(s) = e.downcast_ref::<&str>() {
+        s.to_string()
+    } else {
+        "panic".to_string()
+    }
+}
+
+fn for_lines(inp: &str, outp: &str, mut f: impl FnMut(&str) -> String) {
+    let fin = std::fs::File::open(inp).expect("input");
+    let mut out = std::io::BufWriter::new(std::fs::File::create(outp).expect("output"));
+    std::panic::set_hook(Box::new(|_| {}));
+    for line in BufReader::new(fin).lines() {
+        let line = line.unwrap();
+        let Some((id, payload)) = line.split_once('\t') else { continue };
+        let r = catch_unwind(AssertUnwindSafe(|| f(payload)));
+        let res = match r {
+            Ok(s) => s,
+            Err(e) => format!("panic:{}", panic_msg(e).replace(['\n', '\t'], " ")),
+        };
+        writeln!(out, "{}\t{}", id, res).unwrap();
+    }
+    out.flush().unwrap();
+}
+
+// payload: chunks as hex separated by '|' <TAB> script over p r b
+fn charreader(payload: &str) -> String {
+    let (chunks, script) = payload.split_once('\t').unwrap_or((payload, ""));
+    let chunks: Vec<Vec<u8>> = if chunks.is_empty() { vec![] } else { chunks.split('|').map(unhex).collect() };
+    vh::char_reader_run(chunks, script).join(" ")
+}
+
+// payload: capacity in cells <TAB> ops separated by ';'
+//   P push_cell | S<hex> allocate_pstr | C<hex> allocate_cstr | W<byte loc> copy_pstr_within | R<n> reserve
+//   E<lo>,<hi> copy_slice_to_end | T<n> truncate | Z<hex> compute_pstr_size | D dump bytes | N<byte loc> scan
+// result per op: `<byte_len>,<byte_cap>,<flag or value>` separated by ';'
+fn heap(payload: &str) -> String {
+    let (cap, ops) = payload.split_once('\t').unwrap_or((payload, ""));
+    let Some(mut h) = vh::VHeap::with_cell_capacity(cap.parse().unwrap_or(0)) else { return "alloc-failed".into() };
+    let mut out = Vec::new();
+    for op in ops.split(';').filter(|o| !o.is_empty()) {
+        let (k, arg) = op.split_at(1);
+        let v: String = match k {
+            "P" => (h.push_cell() as u8).to_string(),
+            "S" => (h.allocate_pstr(std::str::from_utf8(&unhex(arg)).unwrap_or("")) as u8).to_string(),
+            "C" => (h.allocate_cstr(std::str::from_utf8(&unhex(arg)).unwrap_or("")) as u8).to_string(),
+            "W" => match h.copy_pstr_within(arg.parse().unwrap_or(0)) { Some(t) => format!("t{}", t), None => "0".into() },
+            "R" => (h.reserve(arg.parse().unwrap_or(0)) as u8).to_string(),
+            "E" => {
+                let (lo, hi) = arg.split_once(',').unwrap_or(("0", "0"));
+                (h.copy_slice_to_end(lo.parse().unwrap_or(0), hi.parse().unwrap_or(0)) as u8).to_string()
+            }
+            "T" => { h.truncate(arg.parse().unwrap_or(0)); "1".into() }
+            "Z" => vh::VHeap::compute_pstr_size(std::str::from_utf8(&unhex(arg)).unwrap_or("")).to_string(),
+            "D" => h.bytes().iter().map(|b| format!("{:02x}", b)).collect(),
+            "N" => { let (s, t) = h.scan(arg.parse().unwrap_or(0)); format!("{}:{}", s.bytes().map(|b| format!("{:02x}", b)).collect::<String>(), t) }
+            _ => "?".into(),
+        };
+        out.push(format!("{},{},{}", h.byte_len(), h.byte_cap(), v));
+    }
+    out.join(";")
+}
+
+// intern mode: every input line is one thread: `tid<TAB>hex;hex;...`; all threads start together.
+fn intern(inp: &str, outp: &str) {
+    let _guard = vh::atom_table_guard();
+    let lines: Vec<(String, Vec<String>)> = BufReader::new(std::fs::File::open(inp).expect("input"))
+        .lines()
+        .filter_map(|l| {
+            let l = l.ok()?;
+            let (id, p) = l.split_once('\t')?;
+            Some((id.to_string(), p.split(';').filter(|x| !x.is_empty() || true).map(|h| String::from_utf8_lossy(&unhex(h)).to_string()).collect()))
+        })
+        .collect();
+    let barrier = std::sync::Arc::new(std::sync::Barrier::new(lines.len().max(1)));
+    let mut handles = vec![];
+    for (id, texts) in lines {
+        let b = barrier.clone();
+        handles.push(std::thread::spawn(move || {
+            b.wait();
+            let mut res = vec![];
+            for t in &texts {
+                let (idx, inl, back) = vh::intern_atom(t);
+                res.push(format!("{}:{}:{}", idx, inl as u8, (back == *t) as u8));
+            }
+            (id, res.join(";"))
+        }));
+    }
+    let mut out = std::io::BufWriter::new(std::fs::File::create(outp).expect("output"));
+    for h in handles {
+        match h.join() {
+            Ok((id, r)) => writeln!(out, "{}\t{}", id, r).unwrap(),
+            Err(e) => writeln!(out, "?\tpanic:{}", panic_msg(e)).unwrap(),
+        }
+    }
+    out.flush().unwrap();
+}
+
+pub fn dispatch(mode: &str, args: &[String]) -> bool {
+    match mode {
+        "charreader" => for_lines(&args[0], &args[1], charreader),
+        "heap" => for_lines(&args[0], &args[1], heap),
+        "intern" => intern(&args[0], &args[1]),
+        _ => return false,
+    }
+    true
 }
